@@ -294,4 +294,6 @@ void tape_gen(void* buf, size_t count, void* state)
 		memset(buf, 0xFF, count);
 	else
 		sk_bytes(&t->r, buf, count);
+	if (t->flip_call && t->calls == t->flip_call && count)
+		((octet*)buf)[0] ^= 1;
 }
